@@ -250,6 +250,9 @@ class SV:
     def is_integer(self):
         return True
 
+    def __round__(self, n=None):
+        return self
+
     def item(self):
         return self
 
